@@ -81,6 +81,10 @@ pub fn run(case: &Value, ctx: &Ctx) -> Outcome {
                 let r = cli::sfs(ctx, &["view", "-O", "npy"], Some(&text));
                 out.check(r.ok() && r.stdout == want2, || format!("npy/writer/cli{}", if r.panicked() { "-panic" } else { "" }),
                     || json!({"shape": shape, "code": r.code, "stderr": r.stderr, "stdout_len": r.stdout.len(), "want_len": want2.len()}));
+                // stdout dead from the first byte: `view -O npy` must end in a diagnosed error (a writer that leaves its last
+                // bytes to a destructor reports success)
+                let d = cli::sfs_dead_stdout(ctx, &["view", "-O", "npy"], &text, "enospc");
+                out.check(!d.ok() && !d.panicked() && !d.stderr.trim().is_empty(), || "npy/writer/cli-dead-sink".into(), || json!({"shape": shape, "code": d.code, "stderr": d.stderr}));
                 // the same file written with -o over an older, LONGER file: header + exactly prod(shape) doubles, nothing else
                 let (f, left) = cli::sfs_onto_stale_file(ctx, &["view", "-O", "npy"], &text, "npy");
                 out.check(f.ok() && !left && f.stdout == want2, || "npy/writer/cli-stale-destination".into(),
@@ -223,6 +227,20 @@ pub fn run(case: &Value, ctx: &Ctx) -> Outcome {
                         Ok(Err(_)) => out.check(true, String::new, || Value::Null),
                         Ok(Ok((s, v))) => out.fail(format!("npy/damage/extension-accepted/{fill}"), json!({"extra": e, "fill": fill, "read_shape": s, "read_values": v.len(), "header": header.trim()})),
                         Err(p) => out.fail("npy/damage/extension-panic", json!({"extra": e, "fill": fill, "panic": p})),
+                    }
+                    // the same extended file through a stream that is INTERRUPTED once (EINTR) after e bytes of values: whatever
+                    // a reader does about the interruption (surface it, or go on), it may not end up accepting the file - the values
+                    // read before the interruption stay read
+                    if e % itemsize.max(1) == 0 && data_off + e <= bytes.len() {
+                        let r = guarded(|| {
+                            let rd = crate::sched::SchedReader::new(ext.clone(), data_off, 0, None).with_eintr(data_off + e);
+                            sfs_core::Array::read_npy(rd).map(|a| (a.shape().as_ref().to_vec(), a.as_slice().to_vec())).map_err(|x| x.to_string())
+                        });
+                        match r {
+                            Ok(Err(_)) => out.check(true, String::new, || Value::Null),
+                            Ok(Ok((s, v))) => out.fail(format!("npy/damage/extension-accepted-after-eintr/{fill}"), json!({"extra": e, "fill": fill, "read_shape": s, "read_values": v.len(), "header": header.trim()})),
+                            Err(p) => out.fail("npy/damage/extension-eintr-panic", json!({"extra": e, "fill": fill, "panic": p})),
+                        }
                     }
                 }
             }
